@@ -281,7 +281,7 @@ def get_observations(model: Model, keep_index: bool = False) -> pd.Series:
             # TIME could not be converted to float (e.g. 10:15)
             pass
         df.set_index([idcol, idvcol], inplace=True)
-        df = df.squeeze()
+        df = df[dvcol]
     else:
         df = df[dvcol]
     return df
@@ -645,7 +645,7 @@ def get_doses(model: Model):
         # TIME could not be converted to float (e.g. 10:15)
         pass
     df.set_index([idcol, idvcol], inplace=True)
-    return df.squeeze()
+    return df[label]
 
 
 def expand_additional_doses(model: Model, flag: bool = False):
@@ -822,7 +822,7 @@ def get_mdv(model: Model):
     else:
         label = model.datainfo.dv_column.name
 
-    data = model.dataset[label].astype('float64').squeeze()
+    data = model.dataset[label].astype('float64')
 
     series = data.where(data == 0, other=1) if found else pd.Series(np.zeros(len(data)))
 
